@@ -247,20 +247,20 @@ package parquet
 //@ func (*readCounter).Read
 //@   direct-read
 //@   requires r != nil && external(r.r)
-//@   modifies r, HA(p), srcPos, rfault
+//@   modifies r, HA(p), srcPos, rd
 //@   ensures r.r == old(r.r)
 //@   ensures[C08] r.n == old(r.n) + res0 && srcPos == old(srcPos) + res0
 //@   ensures[C10] err == nil ==> (rfault ==> old(rfault))
 
 //@ func getMetaDataSize
 //@   requires external(r)
-//@   modifies srcPos, rfault
+//@   modifies srcPos, rd
 //@   ensures[C10] err == nil ==> (rfault ==> old(rfault))
 //@   ensures[C11] err == nil ==> srcSize >= 8 && srcPos == srcSize && res0 == srcLE32(srcSize - 8) && srcMagic(srcSize - 4)
 
 //@ func ReadMetaData
 //@   requires external(r)
-//@   modifies heap("parquet.readCounter"), srcPos, rfault
+//@   modifies heap("parquet.readCounter"), srcPos, rd
 //@   ensures[C10] err == nil ==> (rfault ==> old(rfault))
 //@   ensures[C11] err == nil ==> srcSize >= 8 && srcMagic(srcSize - 4) && srcLE32(srcSize - 8) + 8 <= srcSize
 // accepted means: a footer was decoded from the position the trailer addresses (C11: nothing is accepted on the strength of the trailer alone)
@@ -268,14 +268,14 @@ package parquet
 
 //@ func (*Metadata).ReadFooter
 //@   requires m != nil && external(r)
-//@   modifies m, heap("parquet.readCounter"), srcPos, rfault
+//@   modifies m, heap("parquet.readCounter"), srcPos, rd
 //@   ensures[C10] err == nil ==> (rfault ==> old(rfault))
 //@   ensures[C11] err == nil ==> srcSize >= 8 && srcMagic(srcSize - 4) && srcLE32(srcSize - 8) + 8 <= srcSize
 
 //@ func PageHeader
 //@   split isRC(r)
 //@   requires srcOrCounter(r)
-//@   modifies heap("parquet.readCounter"), srcPos, rfault, vPage, vDefs, curNV
+//@   modifies heap("parquet.readCounter"), srcPos, rd, vPage, vDefs, curNV
 //@   ghost-exit vPage := false ; vDefs := false
 //@   ensures res0 != nil && freshsince(res0)
 //@   ensures forall q in 0..allocbound(): cast("*parquet.readCounter", q).r == old(cast("*parquet.readCounter", q).r)
@@ -301,7 +301,7 @@ package parquet
 //@   requires srcOrCounter(r) && ph != nil
 //@   requires[C18] vPage && pageOK(ph)
 //@   ensures[C18] err == nil ==> pg.Codec == 0 || pg.Codec == 1 || pg.Codec == 2
-//@   modifies obj(r), srcPos, rfault
+//@   modifies obj(r), srcPos, rd
 //@   ensures freshOrNil(res0)
 //@   ensures[C10] err == nil ==> (rfault ==> old(rfault))
 //@   ensures[C08] err == nil && (pg.Codec == 1 || pg.Codec == 2) ==> srcPos == old(srcPos) + ph.CompressedPageSize
@@ -313,7 +313,7 @@ package parquet
 //@   verify[C04]
 //@   requires 1 <= width && width <= 4 && dyn(in) == typeid("*bytes.Buffer") && payload(in) != 0
 //@   requires[C18] vDefs
-//@   modifies obj(in), rfault
+//@   modifies obj(in), rd
 //@   ensures freshOrNil(res0)
 //@   ensures[C10] err == nil ==> (rfault ==> old(rfault))
 
@@ -321,7 +321,7 @@ package parquet
 //@   verify[C04]
 //@   requires external(r)
 //@   safety[C18] nil-deref
-//@   modifies heap("parquet.readCounter"), srcPos, rfault, vPage, vDefs, curNV
+//@   modifies heap("parquet.readCounter"), srcPos, rd, vPage, vDefs, curNV
 //@   ensures err == nil ==> dyn(res0) == typeid("*bytes.Buffer") && payload(res0) != 0 && freshsince(cast("*bytes.Buffer", res0))
 //@   ensures[C10] err == nil ==> (rfault ==> old(rfault))
 //@ loop (*RequiredField).DoRead#1
@@ -332,7 +332,7 @@ package parquet
 //@   requires f != nil && external(r)
 //@   free-requires 1 <= f.MaxLevels.Def && f.MaxLevels.Def <= 15 && f.MaxLevels.Rep <= 15 && (f.repeated ==> 1 <= f.MaxLevels.Rep)
 //@   safety[C18] nil-deref
-//@   modifies f, HA(f.Defs), HA(f.Reps), heap("parquet.readCounter"), srcPos, rfault, vPage, vDefs, curNV
+//@   modifies f, HA(f.Defs), HA(f.Reps), heap("parquet.readCounter"), srcPos, rd, vPage, vDefs, curNV
 //@   ensures err == nil ==> dyn(res0) == typeid("*bytes.Buffer") && payload(res0) != 0 && freshsince(cast("*bytes.Buffer", res0))
 //@   ensures[C10] err == nil ==> (rfault ==> old(rfault))
 //@   ensures[C08] err == nil ==> srcPos >= old(srcPos) + pg.Size
@@ -358,7 +358,7 @@ package parquet
 
 //@ func GetBools
 //@   requires dyn(r) == typeid("*bytes.Buffer") && payload(r) != 0
-//@   modifies obj(r), rfault
+//@   modifies obj(r), rd
 //@   ensures[C10] err == nil ==> (rfault ==> old(rfault))
 //@ loop GetBools#1
 //@   invariant freshOrNil(out) && freshOrNil(data) && (rfault ==> old(rfault))
@@ -408,7 +408,7 @@ package parquet
 //@   free-requires n >= 0
 //@   free-requires forall u in 0..9223372036854775808: phIsData(srcB, pagePos(srcB, o, u)) && phNV(srcB, pagePos(srcB, o, u)) >= 0
 //@   safety[C16] nil-deref
-//@   modifies heap("parquet.readCounter"), srcPos, rfault, vPage, vDefs, curNV
+//@   modifies heap("parquet.readCounter"), srcPos, rd, vPage, vDefs, curNV
 //@   ensures[C10] err == nil ==> (rfault ==> old(rfault))
 //@   ensures[C16] err == nil ==> #res0 >= 1 && nvSum(srcB, o, #res0) >= n && srcPos == pagePos(srcB, o, #res0)
 //@   ensures[C16] err == nil && n > 0 ==> nvSum(srcB, o, #res0 - 1) < n
@@ -424,7 +424,7 @@ package parquet
 //@ func PageHeaders
 //@   verify[C16]
 //@   requires footer != nil && external(r)
-//@   modifies heap("parquet.readCounter"), srcPos, rfault, vPage, vDefs, curNV
+//@   modifies heap("parquet.readCounter"), srcPos, rd, vPage, vDefs, curNV
 //@   ensures[C10] err == nil ==> (rfault ==> old(rfault))
 //@ loop PageHeaders#1
 //@   invariant (rfault ==> old(rfault)) && freshOrNil(pageHeaders)
